@@ -51,7 +51,11 @@ def gen_history(rng):
             ops.append(["import", m])
             imported.add(m)
         elif r < 0.25:
-            ops.append(["enter", rng.choice([b for b in backends if b["valid"]] or backends)])
+            # a backend *object* exists only if its factory succeeded: only healthy backends can be entered or passed
+            healthy = [b for b in backends if b["valid"]]
+            if not healthy:
+                continue
+            ops.append(["enter", rng.choice(healthy)])
             depth += 1
         elif r < 0.35 and depth > 0:
             ops.append("exit")
@@ -62,8 +66,8 @@ def gen_history(rng):
                 arg = "none"
             elif a < 0.8:
                 arg = ["name", rng.choice([b["name"] for b in backends] + [0, 999])]
-            elif a < 0.95:
-                arg = ["obj", rng.choice([b for b in backends if b["valid"]] or backends)]
+            elif a < 0.95 and any(b["valid"] for b in backends):
+                arg = ["obj", rng.choice([b for b in backends if b["valid"]])]
             else:
                 arg = "bad"
             avail = [fw for fw in fws if fw in imported]
